@@ -5,7 +5,7 @@ from .. import symx
 from ..run import Harness
 from ..symx import choice, INT64_MIN, SymI64
 from ..tree import Arr, Frame, Raised
-from .common import (BV, T, cell_ident, const_ints, frame_rows_clauses, isna, kind_of, mk_col, np_eq, rid_col,
+from .common import (as_cell, BV, T, cell_ident, const_ints, frame_rows_clauses, isna, kind_of, mk_col, np_eq, rid_col,
                      same_key, scalar_of, sym_cell, KIND_DTYPE)
 
 class Subset(Harness):
@@ -115,7 +115,7 @@ class Subset(Harness):
                 sel = lambda i: c["mask"].cells[i]
             else:
                 v = c["value"]
-                vc = v.c if hasattr(v, "c") else v.e if hasattr(v, "e") else v
+                vc = as_cell(v, k)
                 sel = lambda i: np_eq(X[i], vc, k)
             keep_iff((lambda i: sel(i)) if m == "filter" else (lambda i: z3.Not(sel(i))))
         elif m == "slice":
